@@ -118,7 +118,13 @@ func workerMain(args []string) {
 			}
 		}
 	}
-	emit("KINDS %d %d", mcGround, mcGeneric)
+	nBound := 0
+	for f := range ssautil.AllFunctions(prog) {
+		if strings.HasSuffix(f.Name(), "$bound") && f.Pkg == nil || (strings.HasSuffix(f.Name(), "$bound") && f.Pkg != nil && f.Pkg.Pkg.Path() == "c07p") {
+			nBound++
+		}
+	}
+	emit("KINDS %d %d %d", mcGround, mcGeneric, nBound)
 
 	for _, job := range jobs {
 		name, cfgFile, _ := strings.Cut(job, "@")
